@@ -1185,6 +1185,7 @@ func main() {
 	outLean := flag.String("lean", "", "Lean data output")
 	leanNS := flag.String("ns", "Gen", "Lean namespace")
 	outGo := flag.String("go", "", "Go type registry output (for the harness)")
+	outFacts := flag.String("facts", "", "facts.json output (facts about codec/*.go and package-level state)")
 	flag.Parse()
 
 	sc := &Schema{}
@@ -1283,6 +1284,10 @@ func main() {
 	}
 	if *outGo != "" {
 		os.WriteFile(*outGo, []byte(emitGo(sc)), 0o644)
+	}
+	if *outFacts != "" {
+		b, _ := json.MarshalIndent(extractFacts(*root), "", " ")
+		os.WriteFile(*outFacts, b, 0o644)
 	}
 	nOpaque := 0
 	for _, t := range sc.Types {
